@@ -102,8 +102,9 @@ Known(x, y) == Cmp(x, y) # 2
 RFloor(x) == x[1] \div x[2]                 \* TLC's \div floors; x must be good
 RCeil(x)  == -((-x[1]) \div x[2])
 
-RMin(x, y) == IF RLe(x, y) THEN x ELSE y
-RMax(x, y) == IF RGe(x, y) THEN x ELSE y
+\* (a comparison that does not fit the representable range is unknown, not "greater")
+RMin(x, y) == IF Cmp(x, y) = 2 THEN (IF IsNaN(x) \/ IsNaN(y) THEN NaN ELSE OVF) ELSE IF RLe(x, y) THEN x ELSE y
+RMax(x, y) == IF Cmp(x, y) = 2 THEN (IF IsNaN(x) \/ IsNaN(y) THEN NaN ELSE OVF) ELSE IF RGe(x, y) THEN x ELSE y
 
 RECURSIVE RSumSeq(_)
 RSumSeq(s) == IF s = <<>> THEN Zero ELSE RAdd(s[1], RSumSeq(Tail(s)))
